@@ -1,0 +1,427 @@
+//! Verification hooks (cargo feature `verif-hooks`).
+//!
+//! Everything in here is compiled only with the feature on. The hooks replace the crate's
+//! *environment sources* (monotonic clock, wall clock, random numbers, hash-map seeds) with
+//! harness-controlled, thread-local, deterministic ones of the same shape, and offer a few
+//! read-only accessors. They never change what the library computes from those sources.
+#![allow(missing_docs)]
+
+use std::cell::{Cell, RefCell};
+use std::collections::hash_map::DefaultHasher;
+use std::hash::{BuildHasher, Hash};
+use std::ops::{Add, Deref, DerefMut, Sub};
+
+use instant::Duration;
+
+thread_local! {
+    static NOW_US: Cell<u64> = const { Cell::new(1_000_000) };
+    static RNG: Cell<u64> = const { Cell::new(0x9E37_79B9_7F4A_7C15) };
+    static HASH_SEED: Cell<u64> = const { Cell::new(1) };
+    static HASH_COUNTER: Cell<u64> = const { Cell::new(0) };
+    static WAIT_QUANTUM_US: Cell<u64> = const { Cell::new(1_000) };
+    static WAIT_YIELDS: Cell<u64> = const { Cell::new(0) };
+    static WAIT_CALLBACK: RefCell<Option<Box<dyn FnMut()>>> = const { RefCell::new(None) };
+}
+
+/// Wall-clock offset so that `millis_since_epoch` looks like a plausible epoch value.
+const EPOCH_BASE_MS: u128 = 1_700_000_000_000;
+
+/// Re-initialises every thread-local environment source. Call at the start of an execution.
+pub fn reset(time_us: u64, rng_seed: u64, hash_seed: u64) {
+    NOW_US.with(|c| c.set(time_us));
+    RNG.with(|c| c.set(rng_seed | 1));
+    HASH_SEED.with(|c| c.set(hash_seed));
+    HASH_COUNTER.with(|c| c.set(0));
+    WAIT_YIELDS.with(|c| c.set(0));
+}
+
+pub fn now_us() -> u64 {
+    NOW_US.with(Cell::get)
+}
+
+pub fn set_now_us(t: u64) {
+    NOW_US.with(|c| c.set(t));
+}
+
+pub fn advance_us(d: u64) {
+    NOW_US.with(|c| c.set(c.get() + d));
+}
+
+pub fn set_wait_quantum_us(q: u64) {
+    WAIT_QUANTUM_US.with(|c| c.set(q.max(1)));
+}
+
+pub fn wait_yields() -> u64 {
+    WAIT_YIELDS.with(Cell::get)
+}
+
+/// Installs (or removes) the callback run at each yield of the lockstep wait loop.
+pub fn set_wait_callback(cb: Option<Box<dyn FnMut()>>) {
+    WAIT_CALLBACK.with(|c| *c.borrow_mut() = cb);
+}
+
+/// Called from `P2PSession::yield_lockstep_wait`: virtual time only moves when the harness
+/// moves it, so the spin loop has to move it itself in order to terminate.
+pub(crate) fn on_wait_yield() {
+    WAIT_YIELDS.with(|c| c.set(c.get() + 1));
+    let q = WAIT_QUANTUM_US.with(Cell::get);
+    advance_us(q);
+    // take the callback out while it runs so that a re-entrant yield cannot double borrow
+    let cb = WAIT_CALLBACK.with(|c| c.borrow_mut().take());
+    if let Some(mut cb) = cb {
+        cb();
+        WAIT_CALLBACK.with(|c| {
+            let mut slot = c.borrow_mut();
+            if slot.is_none() {
+                *slot = Some(cb);
+            }
+        });
+    }
+}
+
+pub(crate) fn millis_since_epoch() -> u128 {
+    EPOCH_BASE_MS + u128::from(now_us() / 1000)
+}
+
+/// Virtual stand-in for `instant::Instant`: microseconds of virtual time.
+#[derive(Copy, Clone, Debug, PartialEq, Eq, PartialOrd, Ord, Hash)]
+pub struct Instant(u64);
+
+impl Instant {
+    pub fn now() -> Self {
+        Self(now_us())
+    }
+    pub fn as_micros(&self) -> u64 {
+        self.0
+    }
+    pub fn duration_since(&self, earlier: Self) -> Duration {
+        Duration::from_micros(self.0.saturating_sub(earlier.0))
+    }
+    pub fn elapsed(&self) -> Duration {
+        Self::now().duration_since(*self)
+    }
+}
+
+impl Add<Duration> for Instant {
+    type Output = Instant;
+    fn add(self, rhs: Duration) -> Instant {
+        Instant(self.0 + rhs.as_micros() as u64)
+    }
+}
+
+impl Sub<Duration> for Instant {
+    type Output = Instant;
+    fn sub(self, rhs: Duration) -> Instant {
+        Instant(self.0.saturating_sub(rhs.as_micros() as u64))
+    }
+}
+
+impl Sub<Instant> for Instant {
+    type Output = Duration;
+    fn sub(self, rhs: Instant) -> Duration {
+        self.duration_since(rhs)
+    }
+}
+
+/// Shadows the `rand` crate inside `protocol.rs`: a seeded xorshift64*.
+pub mod rand {
+    pub trait FromU64 {
+        fn from_u64(v: u64) -> Self;
+    }
+    impl FromU64 for u16 {
+        fn from_u64(v: u64) -> Self {
+            (v >> 32) as u16
+        }
+    }
+    impl FromU64 for u32 {
+        fn from_u64(v: u64) -> Self {
+            (v >> 24) as u32
+        }
+    }
+    impl FromU64 for u64 {
+        fn from_u64(v: u64) -> Self {
+            v
+        }
+    }
+    pub fn random<T: FromU64>() -> T {
+        T::from_u64(super::next_u64())
+    }
+}
+
+pub fn next_u64() -> u64 {
+    RNG.with(|c| {
+        let mut x = c.get();
+        x ^= x >> 12;
+        x ^= x << 25;
+        x ^= x >> 27;
+        c.set(x);
+        x.wrapping_mul(0x2545_F491_4F6C_DD1D)
+    })
+}
+
+/// `BuildHasher` whose keys come from a thread-local seed and a per-map counter, mirroring the
+/// way `std::collections::hash_map::RandomState` gives every map its own keys.
+#[derive(Clone, Debug)]
+pub struct SeededState {
+    k: u64,
+}
+
+impl SeededState {
+    fn fresh() -> Self {
+        let seed = HASH_SEED.with(Cell::get);
+        let n = HASH_COUNTER.with(|c| {
+            let v = c.get();
+            c.set(v + 1);
+            v
+        });
+        let mut z = seed
+            .wrapping_mul(0x9E37_79B9_7F4A_7C15)
+            .wrapping_add(n.wrapping_mul(0xBF58_476D_1CE4_E5B9));
+        z ^= z >> 30;
+        z = z.wrapping_mul(0x94D0_49BB_1331_11EB);
+        z ^= z >> 31;
+        Self { k: z }
+    }
+}
+
+impl Default for SeededState {
+    fn default() -> Self {
+        Self::fresh()
+    }
+}
+
+impl BuildHasher for SeededState {
+    type Hasher = DefaultHasher;
+    fn build_hasher(&self) -> DefaultHasher {
+        use std::hash::Hasher;
+        let mut h = DefaultHasher::new();
+        h.write_u64(self.k);
+        h
+    }
+}
+
+/// Drop-in for `std::collections::HashMap` with harness-seeded iteration order.
+pub struct HashMap<K, V>(std::collections::HashMap<K, V, SeededState>);
+
+impl<K, V> HashMap<K, V> {
+    pub fn new() -> Self {
+        Self(std::collections::HashMap::with_hasher(SeededState::fresh()))
+    }
+}
+
+impl<K: Eq + Hash, V> HashMap<K, V> {
+    /// Inherent so that two-phase borrows work as they do on the std type.
+    pub fn insert(&mut self, k: K, v: V) -> Option<V> {
+        self.0.insert(k, v)
+    }
+}
+
+impl<K, V> Default for HashMap<K, V> {
+    fn default() -> Self {
+        Self::new()
+    }
+}
+
+impl<K, V> Deref for HashMap<K, V> {
+    type Target = std::collections::HashMap<K, V, SeededState>;
+    fn deref(&self) -> &Self::Target {
+        &self.0
+    }
+}
+
+impl<K, V> DerefMut for HashMap<K, V> {
+    fn deref_mut(&mut self) -> &mut Self::Target {
+        &mut self.0
+    }
+}
+
+impl<K: Clone, V: Clone> Clone for HashMap<K, V> {
+    fn clone(&self) -> Self {
+        Self(self.0.clone())
+    }
+}
+
+impl<K: std::fmt::Debug, V: std::fmt::Debug> std::fmt::Debug for HashMap<K, V> {
+    fn fmt(&self, f: &mut std::fmt::Formatter<'_>) -> std::fmt::Result {
+        self.0.fmt(f)
+    }
+}
+
+impl<K, V> IntoIterator for HashMap<K, V> {
+    type Item = (K, V);
+    type IntoIter = std::collections::hash_map::IntoIter<K, V>;
+    fn into_iter(self) -> Self::IntoIter {
+        self.0.into_iter()
+    }
+}
+
+impl<'a, K, V> IntoIterator for &'a HashMap<K, V> {
+    type Item = (&'a K, &'a V);
+    type IntoIter = std::collections::hash_map::Iter<'a, K, V>;
+    fn into_iter(self) -> Self::IntoIter {
+        self.0.iter()
+    }
+}
+
+impl<'a, K, V> IntoIterator for &'a mut HashMap<K, V> {
+    type Item = (&'a K, &'a mut V);
+    type IntoIter = std::collections::hash_map::IterMut<'a, K, V>;
+    fn into_iter(self) -> Self::IntoIter {
+        self.0.iter_mut()
+    }
+}
+
+impl<K: Eq + Hash, V> FromIterator<(K, V)> for HashMap<K, V> {
+    fn from_iter<I: IntoIterator<Item = (K, V)>>(iter: I) -> Self {
+        let mut m = Self::new();
+        for (k, v) in iter {
+            m.0.insert(k, v);
+        }
+        m
+    }
+}
+
+/// The crate's real codec entry points, exported for exhaustive sweeps.
+pub mod codec {
+    pub fn encode<'a>(reference: &[u8], inputs: impl Iterator<Item = &'a Vec<u8>>) -> Vec<u8> {
+        crate::network::compression::encode(reference, inputs)
+    }
+    pub fn decode(reference: &[u8], data: &[u8]) -> Result<Vec<Vec<u8>>, String> {
+        crate::network::compression::decode(reference, data).map_err(|e| e.to_string())
+    }
+}
+
+/// Sizes of the internal buffers of one endpoint.
+#[derive(Clone, Debug, PartialEq, Eq)]
+pub struct EndpointSizes {
+    pub addr: String,
+    pub spectator: bool,
+    pub state: &'static str,
+    pub pending_output: usize,
+    pub recv_inputs: usize,
+    pub pending_checksums: usize,
+    pub send_queue: usize,
+    pub event_queue: usize,
+    pub sync_random_requests: usize,
+    pub last_recv_frame: i32,
+    pub last_acked_frame: i32,
+    pub remote_magic: u16,
+    pub magic: u16,
+}
+
+/// Sizes of the internal buffers of a session.
+#[derive(Clone, Debug, PartialEq, Eq, Default)]
+pub struct BufferSizes {
+    pub event_queue: usize,
+    pub pending_local_inputs: usize,
+    pub outgoing_local_inputs: usize,
+    pub local_checksum_history: usize,
+    pub endpoints: Vec<EndpointSizes>,
+}
+
+/// Byte sink for state digests (key of the visited set in stateful exploration).
+pub trait Digest {
+    fn digest(&self, out: &mut Vec<u8>);
+}
+
+macro_rules! digest_int {
+    ($($t:ty),*) => {$(
+        impl Digest for $t {
+            fn digest(&self, out: &mut Vec<u8>) {
+                out.extend_from_slice(&self.to_le_bytes());
+            }
+        }
+    )*};
+}
+digest_int!(u8, u16, u32, u64, u128, i16, i32, i64, usize);
+
+impl Digest for bool {
+    fn digest(&self, out: &mut Vec<u8>) {
+        out.push(u8::from(*self));
+    }
+}
+
+impl Digest for Instant {
+    fn digest(&self, out: &mut Vec<u8>) {
+        self.0.digest(out);
+    }
+}
+
+impl Digest for Duration {
+    fn digest(&self, out: &mut Vec<u8>) {
+        (self.as_micros() as u64).digest(out);
+    }
+}
+
+impl<T: Digest> Digest for Option<T> {
+    fn digest(&self, out: &mut Vec<u8>) {
+        match self {
+            None => out.push(0),
+            Some(v) => {
+                out.push(1);
+                v.digest(out);
+            }
+        }
+    }
+}
+
+impl<T: Digest> Digest for [T] {
+    fn digest(&self, out: &mut Vec<u8>) {
+        self.len().digest(out);
+        for v in self {
+            v.digest(out);
+        }
+    }
+}
+
+impl<T: Digest> Digest for Vec<T> {
+    fn digest(&self, out: &mut Vec<u8>) {
+        self.as_slice().digest(out);
+    }
+}
+
+impl<T: Digest> Digest for std::collections::VecDeque<T> {
+    fn digest(&self, out: &mut Vec<u8>) {
+        self.len().digest(out);
+        for v in self {
+            v.digest(out);
+        }
+    }
+}
+
+impl<A: Digest, B: Digest> Digest for (A, B) {
+    fn digest(&self, out: &mut Vec<u8>) {
+        self.0.digest(out);
+        self.1.digest(out);
+    }
+}
+
+/// Digest of a serde value through bincode (inputs, messages).
+pub fn digest_serde<S: serde::Serialize>(v: &S, out: &mut Vec<u8>) {
+    let bytes = bincode::serialize(v).expect("digest serialization failed");
+    bytes.len().digest(out);
+    out.extend_from_slice(&bytes);
+}
+
+/// Digest of a `Debug` value (addresses).
+pub fn digest_debug<D: std::fmt::Debug>(v: &D, out: &mut Vec<u8>) {
+    let s = format!("{v:?}");
+    s.len().digest(out);
+    out.extend_from_slice(s.as_bytes());
+}
+
+/// Digests a map in ascending key order, so that the digest is independent of the hash seed.
+pub fn digest_sorted<'a, K, V, I, F>(iter: I, out: &mut Vec<u8>, mut f: F)
+where
+    K: Ord + 'a,
+    V: 'a,
+    I: Iterator<Item = (&'a K, &'a V)>,
+    F: FnMut(&K, &V, &mut Vec<u8>),
+{
+    let mut items: Vec<(&K, &V)> = iter.collect();
+    items.sort_by(|a, b| a.0.cmp(b.0));
+    items.len().digest(out);
+    for (k, v) in items {
+        f(k, v, out);
+    }
+}
